@@ -180,6 +180,26 @@ impl SampleBuffer {
     }
 }
 
+/// Number of entries recorded so far for every event dimension.
+///
+/// The fields of one event dimension are not all populated on every event (detail
+/// fields are optional), so a dimension is as long as its longest field.
+pub fn event_counts(
+    event_dim_of_stat: &HashMap<String, String>,
+    stats_buffers: &HashMap<String, SampleBuffer>,
+) -> HashMap<String, u64> {
+    let mut counts: HashMap<String, u64> = HashMap::new();
+    for (field, dim) in event_dim_of_stat {
+        let pushed = stats_buffers
+            .get(field.as_str())
+            .map(|buf| buf.total_pushed())
+            .unwrap_or(0);
+        let count = counts.entry(dim.clone()).or_insert(0);
+        *count = (*count).max(pushed);
+    }
+    counts
+}
+
 /// Convert a Value to Zarr data type, length, and fill value for coordinate arrays
 ///
 /// Returns a tuple of (data_type, length, fill_value) extracted from the Value
